@@ -112,6 +112,10 @@ def run_scenario(spec: dict) -> dict:
             cb("a.hookR", hook_dur)
 
         def step(self, observation):
+            if "pacing" in result:
+                # the instant the step starts: the library's system time (exact float) and the raw virtual instant
+                result["pacing"]["steps"].append([float(tc.perf_counter()).hex(), float(sched.now).hex(), None])
+
             def body():
                 if "first" not in result:
                     result["first"] = {"steps_before": state["steps"], "hidden_before": state.get("hidden"), "clock": tc.time(), "raw": sched.now,
@@ -120,6 +124,8 @@ def run_scenario(spec: dict) -> dict:
                 state["hidden"] = state.get("hidden", 0) + 1
                 state["collector"].collect(state["steps"])
             cb("a.step", step_dur, body)
+            if "pacing" in result:
+                result["pacing"]["steps"][-1][2] = float(sched.now).hex()
             return None
 
         def save_state(self, path):
@@ -405,7 +411,29 @@ def run_scenario(spec: dict) -> dict:
                    log_tick_time_statistics_interval=spec.get("log_interval", 60.0),
                    time_scale=spec.get("time_scale", 1.0))
         try:
-            pc.launch(pc.Interaction(A(), E()), {}, {"buf": SequentialBuffer(spec.get("buf_size", 1000))}, {"t": T()}, cfg)
+            if spec.get("fixed_interval"):
+                # a fixed-interval interaction: where the adjustor was reset (end of setup) and when each adjust() returned
+                from pamiq_core.interaction.interval_adjustors import IntervalAdjustor
+                inter = pc.FixedIntervalInteraction.with_sleep_adjustor(A(), E(), spec["fixed_interval"][0], spec["fixed_interval"][1])
+                pacing = result["pacing"] = {"steps": [], "after_adjust": []}
+                adj = [v for v in vars(inter).values() if isinstance(v, IntervalAdjustor)]
+                if len(adj) != 1:
+                    from harness.stub_incomplete import StubIncomplete
+                    raise StubIncomplete("cannot find the interaction's interval adjustor")
+                orig_setup, orig_adjust = inter.setup, adj[0].adjust
+
+                def setup_seen():
+                    orig_setup()
+                    pacing["t0"], pacing["raw0"] = float(tc.perf_counter()).hex(), float(sched.now).hex()
+
+                def adjust_seen():
+                    r = orig_adjust()
+                    pacing["after_adjust"].append(float(sched.now).hex())
+                    return r
+                inter.setup, adj[0].adjust = setup_seen, adjust_seen
+            else:
+                inter = pc.Interaction(A(), E())
+            pc.launch(inter, {}, {"buf": SequentialBuffer(spec.get("buf_size", 1000))}, {"t": T()}, cfg)
             result["outcome"] = "returned"
         except Injected as e:
             result["outcome"] = "raised:" + str(e)
